@@ -386,6 +386,8 @@ def call_hooks():
     def method_hook(ex, recv, name, args, node):
         r0 = deref(recv)
         if isinstance(r0, Term) and r0.key == "ccx.s3":
+            if name == "clone":
+                return r0
             ex.event("s3." + name, *args)
             return Term("s3_result", Term(name), ex.fresh("r"))
         if isinstance(r0, Term) and r0.key.startswith("payload(ccx.access"):
@@ -446,9 +448,6 @@ def check_calls(rep, prog, model, trait_ops):
         for module, fn, trait in lst:
             if not trait or trait.split("::")[-1] != "Operation":
                 continue
-            if ty in ("CompleteMultipartUpload",):
-                # hand-written keep-alive variant: handled with a wider catalogue below
-                pass
             ex = rsx.Executor(prog, call_hook=ch, method_hook=mh, macro_hook=prof.macro_hook,
                               no_inline={"deserialize_http", "serialize_http", "build_s3_request", "serialize_error"})
 
@@ -459,9 +458,6 @@ def check_calls(rep, prog, model, trait_ops):
             try:
                 paths = ex.explore(fn, args, module, self_ty=ty)
             except rsx.Unsupported as u:
-                if ty == "CompleteMultipartUpload":
-                    rep.out("CompleteMultipartUpload::call (keep-alive future) is checked by the C03 driver: %s" % u)
-                    continue
                 raise Inconclusive("%s::call: %s" % (ty, u))
             want = "s3." + snake(ty)
             bad = None
